@@ -1,1 +1,96 @@
-fn main(){ println!("hi"); }
+mod c01;
+mod compile;
+mod den;
+mod jsval;
+mod member;
+mod proc;
+mod render;
+mod runner;
+mod src;
+
+use runner::{Check, Tier};
+use std::sync::Arc;
+
+fn check_by_id(id: &str) -> Option<Arc<dyn Check>> {
+    Some(match id {
+        "C01" => Arc::new(c01::C01),
+        _ => return None,
+    })
+}
+
+fn main() {
+    compile::install_panic_hook();
+    let args: Vec<String> = std::env::args().collect();
+    if args.len() < 2 {
+        eprintln!("usage: beffv check <ID> [--tier quick|thorough] [--seed N] | replay <ID> <file> | gen <ID> [N] | compile <file.ts>");
+        std::process::exit(2);
+    }
+    let seed = std::env::var("VERIF_SEED").ok().and_then(|s| s.parse::<u64>().ok()).unwrap_or(runner::DEFAULT_SEED);
+    let mut tier = match std::env::var("VERIF_TIER").ok().as_deref() {
+        Some("thorough") => Tier::Thorough,
+        _ => Tier::Quick,
+    };
+    let mut seed = seed;
+    let mut i = 3;
+    while i < args.len() {
+        match args[i].as_str() {
+            "--tier" => {
+                tier = if args.get(i + 1).map(|s| s.as_str()) == Some("thorough") { Tier::Thorough } else { Tier::Quick };
+                i += 1;
+            }
+            "--seed" => {
+                seed = args.get(i + 1).and_then(|s| s.parse().ok()).unwrap_or(seed);
+                i += 1;
+            }
+            _ => {}
+        }
+        i += 1;
+    }
+    match args[1].as_str() {
+        "check" => {
+            let id = args.get(2).cloned().unwrap_or_default();
+            match check_by_id(&id) {
+                Some(c) => std::process::exit(runner::run_check(c, tier, seed)),
+                None => {
+                    eprintln!("INFRASTRUCTURE: unknown check {}", id);
+                    std::process::exit(2)
+                }
+            }
+        }
+        "replay" => {
+            let id = args.get(2).cloned().unwrap_or_default();
+            let file = args.get(3).cloned().unwrap_or_default();
+            match check_by_id(&id) {
+                Some(c) => std::process::exit(runner::replay(c, &file)),
+                None => std::process::exit(2),
+            }
+        }
+        "gen" => {
+            // print sample cases of a check (debugging aid)
+            let id = args.get(2).cloned().unwrap_or_default();
+            let n: usize = args.get(3).and_then(|s| s.parse().ok()).unwrap_or(3);
+            let c = check_by_id(&id).expect("check");
+            use proptest::prelude::*;
+            use proptest::strategy::ValueTree;
+            use proptest::test_runner::{Config, RngSeed, TestRunner};
+            let mut runner = TestRunner::new(Config { rng_seed: RngSeed::Fixed(seed), ..Config::default() });
+            let strat = proptest::collection::vec(any::<u32>(), 0..=c.stream_len());
+            for _ in 0..n {
+                let data = strat.new_tree(&mut runner).unwrap().current();
+                let mut s = src::Src::new(&data);
+                let case = c.generate(&mut s, tier);
+                println!("{}", serde_json::to_string_pretty(&case).unwrap());
+            }
+        }
+        "worker-compile" => compile::worker_main(),
+        "compile" => {
+            let text = std::fs::read_to_string(&args[2]).expect("read");
+            let out = compile::compile(&compile::Project::single(&text));
+            println!("{}", serde_json::to_string_pretty(&out).unwrap());
+        }
+        _ => {
+            eprintln!("unknown command");
+            std::process::exit(2);
+        }
+    }
+}
